@@ -26,7 +26,9 @@ LEX = {
     "wildcard": ["*"],
     "utxo_ref": ["0x" + "07" * 32 + "#1", "0xab#0", "0xabc#0", "0xab#99999999999999999999"],
 }
-PRELUDE = ["party", "P", ";", "type", "R", "{", "f", ":", "Int", ",", "}", "type", "V", "{", "K", "{", "f", ":", "Int", ",", "}", ",", "J", ",", "}"]
+SAME_NAMES = ["Z", "R", "a", "P"]      # Z: the alias being defined in the alias scaffold; R, P: a type / party of the prelude
+DEFINING = {"program", "type_def", "type", "env_def", "asset_def", "policy_def", "parameter_list", "locals_block", "tx_def"}
+PRELUDE = ["type", "N", "=", "Int", ";", "party", "P", ";", "type", "R", "{", "f", ":", "Int", ",", "}", "type", "V", "{", "K", "{", "f", ":", "Int", ",", "}", ",", "J", ",", "}"]
 
 # root rule -> (tokens before, tokens after) embedding the derived sentence in a whole program
 EXPR_SLOTS = [
@@ -78,8 +80,9 @@ def scaffolds(kind):
     raise core.ToolError(kind)
 
 
-def realise(sent, rng, hostile_at=None, hostile_lex=None):
-    """grammar sentence (symbols) -> concrete tokens"""
+def realise(sent, rng, hostile_at=None, hostile_lex=None, same=None):
+    """grammar sentence (symbols) -> concrete tokens; with `same` every identifier is that one
+    name, which makes definitions refer to themselves, repeat and shadow each other"""
     out = []
     for i, s in enumerate(sent):
         if s["t"] == "lit":
@@ -88,6 +91,8 @@ def realise(sent, rng, hostile_at=None, hostile_lex=None):
             pool = LEX.get(s["v"], ["a"])
             if hostile_at == i:
                 out.append(hostile_lex)
+            elif s["v"] == "identifier" and same is not None:
+                out.append(same)
             elif s["v"] == "identifier":
                 out.append(rng.choice(pool[:8]))
             else:
@@ -146,9 +151,39 @@ def nesting_bombs():
     return out
 
 
+def reference_bombs():
+    """definitions that mention themselves, each other, or a name defined later, k times: the analyzer
+    resolves names in repeated passes, and a pass must not multiply the work of the previous one"""
+    out = []
+    # (on the pinned tree a local or an input that mentions itself five or more times exhausts memory
+    # within seconds -- a recorded finding; the sizes in between only make the run slow)
+    for k in (2, 3, 5, 8):
+        refs = "+".join(["a"] * k)
+        out.append(("self-reference:local", "tx t() { locals { a: %s, } }" % refs))
+        if k != 3:
+            out.append(("self-reference:local-pair", "tx t() { locals { a: %s, b: %s, } }" % ("+".join(["b"] * k), refs)))
+        if k >= 5:
+            out.append(("self-reference:local-property", "tx t() { locals { a: %s, } }" % "+".join(["().a.a"] * k)))
+        if k != 5:
+            out.append(("self-reference:input", "party P; tx t() { input a { from: P, min_amount: %s, } }" % refs))
+        fields = " ".join("f%d: T," % i for i in range(k))
+        out.append(("self-reference:type", "type T { %s } tx t() {}" % fields))
+        out.append(("self-reference:type+alias", "type T { %s } type A = Int; tx t() {}" % fields))
+        out.append(("self-reference:alias", "type A = Map<%s>; tx t() {}" % ",".join(["A"] * 2)))
+        out.append(("self-reference:alias-list", "type A = List<A>; type B = %s; tx t() {}" % "Map<A,A>"))
+        out.append(("self-reference:type-pair", "type T { %s } type U { %s } type A = Bytes; tx t() {}"
+                    % (" ".join("f%d: U," % i for i in range(k)), fields)))
+        out.append(("self-reference:output", "party P; tx t() { input a { from: P, min_amount: Ada(1), } output b { to: P, amount: %s, } }"
+                    % "+".join(["b"] * k)))
+    return out
+
+
 def sig_of(b):
     import re
     d = b["detail"]
+    if b["why"] == "panic" and d.get("site") == "process" and str(b.get("_origin", "")).startswith("self-reference:"):
+        # the process ran out of time or memory; which of the two depends on the machine
+        return f"panic|analyze|unbounded|{b['_origin']}"
     if b["why"] == "panic":
         msg = re.sub(r"\d+", "N", str(d.get("msg")))       # positions inside messages are not part of the site
         return f"panic|{d.get('stage')}|{d.get('outcome')}|{d.get('site')}|{msg}"
@@ -159,31 +194,108 @@ def sig_of(b):
     return b["why"]
 
 
+GRAMMAR = {}
+
+
 def regenerate_grammar():
-    pest2tla.main()
+    g, minlen, _ = pest2tla.main()
+    GRAMMAR["g"], GRAMMAR["minlen"] = g, minlen
+    return g, minlen
 
 
-def enumerate_sentences(rep, roots, tag, workers):
+def alt_minlen(alt, minlen):
+    return sum(minlen.get(s[1], 99) if s[0] == "nt" else 1 for s in alt)
+
+
+def reachable(g, roots):
+    seen, todo = set(), list(roots)
+    while todo:
+        r = todo.pop()
+        if r in seen or r not in g:
+            continue
+        seen.add(r)
+        for a in g[r]:
+            todo.extend(s[1] for s in a if s[0] == "nt")
+    return seen
+
+
+CCFG = """CONSTANTS
+  Root = "{root}"
+  Budget = {n}
+INIT Init
+NEXT Next
+INVARIANTS EmitCase
+CHECK_DEADLOCK FALSE
+"""
+
+
+def enumerate_sentences(rep, roots, tag, workers, deep_below=20):
+    """(a) MC_Grammar: every sentence of at most N tokens per root; (b) MC_GrammarCover: from each root,
+    every derivation that deviates from the shortest expansions at most `budget` times, whatever
+    its length (so a long or newly added alternative of a rule is derived as well).  The
+    alternatives each sentence used are collected: the evidence states which <<rule, alternative>>
+    pairs of the grammar reachable from the roots were covered."""
+    g, minlen = GRAMMAR.get("g"), GRAMMAR.get("minlen")
+    if g is None:
+        g, minlen = regenerate_grammar()
     out = []
+    covered = set()
+    seen = set()
+    n_cover = 0
     for root, n, kind in roots:
         r = core.tlc_mc("MC_Grammar", GCFG.format(root=root, n=n), f"{tag}_{root}", workers=workers, timeout=1500, heap="10g")
         rep.add_tlc(r)
         for c in r.cases:
             out.append((root, kind, c["toks"]))
+            seen.add((root, core.canon(c["toks"])))
+            covered.update((u[0], u[1]) for u in c["used"])
+        # cover mode: one deviation always; two where that stays small (a rule holding several
+        # data_expr children multiplies by the ~400 alternatives of data_expr at each deviation)
+        r = core.tlc_mc("MC_GrammarCover", CCFG.format(root=root, n=1), f"{tag}_cov_{root}", workers=workers, timeout=1500, heap="10g")
+        rep.add_tlc(r)
+        if len(r.cases) < deep_below:
+            r = core.tlc_mc("MC_GrammarCover", CCFG.format(root=root, n=2), f"{tag}_cov_{root}", workers=workers, timeout=1500, heap="10g")
+            rep.add_tlc(r)
+        for c in r.cases:
+            key = (root, core.canon(c["toks"]))
+            covered.update((u[0], u[1]) for u in c["used"])
+            if key not in seen:
+                seen.add(key)
+                out.append((root, "cover", c["toks"]))
+                n_cover += 1
+    reach = reachable(g, [r for r, _, _ in roots])
+    allpairs = {(r, k + 1) for r in reach for k in range(len(g[r]))}
+    missing = sorted(allpairs - covered)
+    rep.extra["grammar_alternatives"] = {"reachable": len(allpairs), "covered": len(allpairs & covered),
+                                         "uncovered": [f"{r}#{k}" for r, k in missing][:80],
+                                         "sentences_from_cover_mode": n_cover,
+                                         "cover_mode": f"1 deviation from the shortest expansion per root, 2 where 1 gives fewer than {deep_below} sentences"}
     return out
 
 
 def build_sources(rep, tier, seed, multiline):
     quick = tier == "quick"
     rng = random.Random(seed)
-    sents = enumerate_sentences(rep, ROOTS_QUICK if quick else ROOTS_THOROUGH, rep.pid.lower() + "_g", 6 if quick else 12)
+    sents = enumerate_sentences(rep, ROOTS_QUICK if quick else ROOTS_THOROUGH, rep.pid.lower() + "_g", 6 if quick else 12,
+                                deep_below=20 if quick else 500)
     rep.extra["grammar_sentences"] = len(sents)
     sources = []
     for root, kind, sent in sents:
+        if kind == "cover":     # a sentence of the alternative-coverage enumeration: one realisation, one scaffold
+            k0 = dict((r, k) for r, _, k in ROOTS_THOROUGH)[root]
+            pre, post = scaffolds(k0)[0]
+            sources.append(("cover:" + root, text_of(pre + realise(sent, rng) + post, 0, 0)))
+            continue
         for pre, post in scaffolds(kind):
             toks = pre + realise(sent, rng) + post
             mode = rng.choice([0, 0, 2, 1]) if multiline else 0
             sources.append(("grammar:" + root, text_of(toks, mode, rng.randrange(1 << 30))))
+        # one name for every identifier: self-reference, redefinition, shadowing
+        if sum(1 for x in sent if x["t"] == "tok" and x["v"] == "identifier") >= 2:
+            pre, post = scaffolds(kind)[0]
+            for name in (SAME_NAMES if root in DEFINING else SAME_NAMES[:1]):
+                toks = pre + realise(sent, rng, same=name) + post
+                sources.append(("same-name:" + root, text_of(toks, 0, 0)))
         # hostile lexemes, one terminal at a time (sampled)
         tpos = [i for i, s in enumerate(sent) if s["t"] == "tok" and len(LEX.get(s["v"], [])) > 1]
         for i in tpos[:3]:
@@ -207,6 +319,7 @@ def build_sources(rep, tier, seed, multiline):
         sources.append(("example", c))
     for b in nesting_bombs():
         sources.append(("nesting", b))
+    sources.extend(reference_bombs())
     rep.extra["sources"] = len(sources)
     return sources
 
@@ -261,7 +374,7 @@ def check_c12(tier, seed):
                 "`program` and rooted at every major non-terminal embedded in a scaffold program, realised with resolvable and "
                 "unresolvable identifier lexemes; (b) the same with one terminal replaced by a hostile lexeme (20-digit numerals, odd "
                 "hex, huge hex, multi-byte strings, oversized indices); (c) seeded token-level mutations (delete, duplicate, swap, "
-                "splice, literal stretching) of the example corpus; (d) nesting to depth 64. Each string is parsed and analysed in "
+                "splice, literal stretching) of the example corpus; (d) nesting to depth 64; (e) every sentence with one name for all its identifiers, and definitions that mention themselves or each other 2..8 times; (f) alternative coverage: from each root every derivation deviating at most once (twice where cheap) from the shortest expansions, so that every alternative of every rule is derived. Each string is parsed and analysed in "
                 "an isolated child. non-trivial: the string parses (analysis is reached); distinct = distinct strings.")
     rep.assumptions = ["TLC 1.8, Json module", "Grammar.tla regenerated from the pest file on every run (repetitions bounded to 2)",
                        "a hang is observed as a 30 s timeout of the driver child", "accept vs reject is not predicted (outcome alphabet only)"]
@@ -283,6 +396,7 @@ def check_c12(tier, seed):
             continue
         k = locate(evs[b["case"]], b["event"])
         src = sources[index[b["case"]][k]] if k < len(index[b["case"]]) else ("?", "")
+        b["_origin"] = src[0]
         rep.violation(sig_of(b), f"{b['why']} {b['detail']} origin={src[0]}", {"cmd": "frontend", "source": src[1], "origin": src[0], "why": b["why"], "detail": b["detail"]})
     canary(rep, "c12")
     rep.samples = [{"origin": sources[k][0], "source": sources[k][1][:300]} for k in (0, len(sources) // 3, len(sources) // 2)]
